@@ -225,9 +225,9 @@ theorem instRead_val_at {strict s : Bool} (hs : attrStrict strict = s) {as₁ ts
 /-! ### complex instances -/
 
 /-- the obligation that ties the statements below to the code at hand: which shape the regenerated tables describe.
-    (To be flipped to `repairedShape` when C15-7 and C15-8 are integrated; the `_partial` rows and the witnesses of the two
-    findings then stop compiling and the `…_repaired` rows become the statements about the code.) -/
-theorem C15_complex_shape : codeShape = oldShape := by decide
+    Since C15-7 (6e026e0e) and C15-8 (e83f8aed) it is `repairedShape`: the `C15_repaired_*` rows are the statements about
+    the code; the rows stated for `oldShape` describe the code before (reverting either repair makes this fail). -/
+theorem C15_complex_shape : codeShape = repairedShape := by decide
 
 theorem partAttrSev_clean {strict s : Bool} (hs : attrStrict strict = s) {as ts} (h : CleanL s as ts) (acc : Sev) :
     partAttrSev strict acc as ts = acc := by
@@ -272,9 +272,15 @@ theorem foldl_greater_clean {strict s : Bool} (hs : attrStrict strict = s) (ps :
 theorem complexReadS_none_head (rp strict : Bool) (p : List AttrD × List Tok) (ps : List (List AttrD × List Tok)) :
     (complexReadS ⟨.none, rp⟩ strict (p :: ps)).1 = (instRead (partStrict strict) p.1 p.2).1 := rfl
 
-theorem complexRead_sev_head (strict : Bool) (p : List AttrD × List Tok) (ps : List (List AttrD × List Tok)) :
-    (complexReadS codeShape strict (p :: ps)).1 = (instRead (partStrict strict) p.1 p.2).1 := by
-  rw [C15_complex_shape]; rfl
+/-- whatever the shape: when the parts after the first are clean, the instance's severity is its first part's -/
+theorem complexReadS_head_at (S : CxShape) {strict s : Bool} (hs : attrStrict (partStrict strict) = s)
+    (p : List AttrD × List Tok) {ps : List (List AttrD × List Tok)} (h : CleanParts s ps) :
+    (complexReadS S strict (p :: ps)).1 = (instRead (partStrict strict) p.1 p.2).1 := by
+  obtain ⟨m, rp⟩ := S
+  cases m with
+  | none => rfl
+  | all => simp only [complexReadS]; rw [foldl_greater_clean hs ps h]
+  | nonDerivedAttrs => simp only [complexReadS]; rw [foldl_partAttrSev_clean hs ps h, greater_null_right]
 
 theorem complexReadS_sev_clean (S : CxShape) {strict s : Bool} (hs : attrStrict (partStrict strict) = s) {ps}
     (h : CleanParts s ps) : (complexReadS S strict ps).1 = .null := by
@@ -361,9 +367,6 @@ theorem fileSevForS_complex_reported (m : CxMerge) (s : Sev) :
     fileSevForS ⟨m, true⟩ ⟨s, true⟩ = entityMerge .null s := by cases s <;> rfl
 
 theorem fileSevFor_simple (s : Sev) : fileSevFor ⟨s, false⟩ = entityMerge .null s := fileSevForS_simple _ s
-theorem fileSevFor_complex (s : Sev) : fileSevFor ⟨s, true⟩ = if s = .null then .null else .warning := by
-  show fileSevForS codeShape _ = _; rw [C15_complex_shape]; exact fileSevForS_complex_unreported _ s
-
 theorem fileSevS_one (S : CxShape) (rs₁ rs₂ : List InstResult) (r : InstResult)
     (h₁ : ∀ x ∈ rs₁, x.sev = .null) (h₂ : ∀ x ∈ rs₂, x.sev = .null) :
     fileSevS S (rs₁ ++ r :: rs₂) = fileSevForS S r := by
@@ -399,20 +402,30 @@ theorem readFile_one {s : Bool} (i : InstIn) (pre post : List InstIn)
     (hpre : ∀ x ∈ pre, CleanInst s x) (hpost : ∀ x ∈ post, CleanInst s x) :
     readFile s (pre ++ i :: post) = fileSevFor (readInst s i) := readFileS_one codeShape i pre post hpre hpost
 
-/-- internally mapped instance or first part of a complex one: the instance's severity is what the pre-check decided -/
-theorem readInst_SH {s : Bool} {a : AttrD} {d : Bool} {i : InstIn} (h : OneMissingSH s a d i) :
-    (readInst s i).sev = (attrRead s a (.missing d)).1 := by
+/-- internally mapped instance or first part of a complex one: the instance's severity is what the pre-check decided —
+    whatever the shape of the complex-instance code -/
+theorem readInstS_SH (S : CxShape) {s : Bool} {a : AttrD} {d : Bool} {i : InstIn} (h : OneMissingSH s a d i) :
+    (readInstS S s i).sev = (attrRead s a (.missing d)).1 := by
   cases h with
   | simple h₁ h₂ => exact instRead_sev_at (C15_strict_plumbing s).1 a _ h₁ h₂
-  | head _ h₁ h₂ =>
-    simp only [readInst, readInstS]
-    rw [complexRead_sev_head]
+  | head hp h₁ h₂ =>
+    simp only [readInstS]
+    rw [complexReadS_head_at S (C15_strict_plumbing s).2.1 _ hp]
     exact instRead_sev_at (C15_strict_plumbing s).2.1 a _ h₁ h₂
 
+theorem complex_of_SH_casesS (S : CxShape) {s a d i} (h : OneMissingSH s a d i) :
+    readInstS S s i = ⟨(attrRead s a (.missing d)).1, i.isComplex⟩ := by
+  have hs := readInstS_SH S h
+  cases h <;> (simp only [readInstS, InstIn.isComplex] at hs ⊢; rw [hs])
+
 theorem complex_of_SH_cases {s a d i} (h : OneMissingSH s a d i) :
-    readInst s i = ⟨(attrRead s a (.missing d)).1, i.isComplex⟩ := by
-  have hs := readInst_SH h
-  cases h <;> (simp only [readInst, readInstS, InstIn.isComplex] at hs ⊢; rw [hs])
+    readInst s i = ⟨(attrRead s a (.missing d)).1, i.isComplex⟩ := complex_of_SH_casesS codeShape h
+
+theorem cleanL_insert {s : Bool} {as₁ ts₁ as₂ ts₂} {a : AttrD} {t : Tok} (h₁ : CleanL s as₁ ts₁)
+    (ha : (attrRead s a t).1 = .null) (h₂ : CleanL s as₂ ts₂) : CleanL s (as₁ ++ a :: as₂) (ts₁ ++ t :: ts₂) := by
+  induction h₁ with
+  | nil => exact .cons ha h₂
+  | cons h1 _ ih => exact .cons h1 ih
 
 /-- shape of C15-8 (whatever `ReadInstance` does with the error): ANY position of ANY instance shape -/
 theorem readInstS_nd {rp s : Bool} {a : AttrD} {d : Bool} {i : InstIn} (ha : a.derived = false) (h : OneMissing s a d i) :
@@ -445,16 +458,17 @@ theorem C15_optional_ok (s d r f g : Bool) (k : Kind) (i : InstIn) (pre post : L
     | simple h₁ h₂ =>
       have := instRead_sev_at (C15_strict_plumbing s).1 (posAttr k true r f g) (Tok.missing d) h₁ h₂
       rw [C15_attr_optional] at this; exact this
-    | @complex ps₁ ps₂ as₁ ts₁ as₂ ts₂ hp₁ _ h₁ h₂ =>
-      simp only [readInst, readInstS]
-      cases ps₁ with
-      | nil =>
-        rw [List.nil_append, complexRead_sev_head]
-        have := instRead_sev_at (C15_strict_plumbing s).2.1 (posAttr k true r f g) (Tok.missing d) h₁ h₂
-        rw [C15_attr_optional] at this; exact this
-      | cons p ps =>
-        rw [List.cons_append, complexRead_sev_head]
-        exact instRead_sev_clean (C15_strict_plumbing s).2.1 (hp₁ p (by simp))
+    | @complex ps₁ ps₂ as₁ ts₁ as₂ ts₂ hp₁ hp₂ h₁ h₂ =>
+      -- an unset OPTIONAL attribute reads without complaint: the instance is a clean one
+      have ha : (attrRead s (posAttr k true r f g) (Tok.missing d)).1 = .null := by rw [C15_attr_optional]
+      apply readInstS_clean
+      apply CleanInst.complex
+      intro p hp
+      simp only [List.mem_append, List.mem_cons] at hp
+      rcases hp with hp | hp | hp
+      · exact hp₁ p hp
+      · subst hp; exact cleanL_insert h₁ ha h₂
+      · exact hp₂ p hp
   have hf : readFile s (pre ++ i :: post) = .null := by
     rw [readFile_one i pre post hpre hpost]
     cases hr : readInst s i with | mk sv c =>
@@ -464,18 +478,6 @@ theorem C15_optional_ok (s d r f g : Bool) (k : Kind) (i : InstIn) (pre post : L
   refine ⟨rfl, rfl, ?_⟩
   unfold nodeState; rw [hs]; rfl
 
-/-- required attribute unset (`$` or absent), STRICT mode, any kind: the instance is incomplete and the read fails.
-    `_partial`: internally mapped instances (every own/inherited position) and the first part of a complex instance;
-    redeclared positions included (`f`); excluded: the parts of a complex instance other than the first
-    (see `C15_strict_required_complex_nonhead_witness`). -/
-theorem C15_strict_required_incomplete_partial (d r f g : Bool) (k : Kind) (i : InstIn) (pre post : List InstIn)
-    (hpre : ∀ x ∈ pre, CleanInst true x) (hpost : ∀ x ∈ post, CleanInst true x)
-    (h : OneMissingSH true (posAttr k false r f g) d i) :
-    p21readExit (readFile true (pre ++ i :: post)) = 1 ∧ accepted (readFile true (pre ++ i :: post)) = false ∧
-    nodeState (readInst true i) = .incomplete := by
-  rw [readFile_one i pre post hpre hpost, complex_of_SH_cases h, C15_attr_strict_required]
-  cases h <;> exact ⟨rfl, rfl, rfl⟩
-
 /-- … for internally mapped instances the file severity is exactly SEVERITY_INCOMPLETE -/
 theorem C15_strict_required_severity_simple (d r f g : Bool) (k : Kind) (i : InstIn) (pre post : List InstIn)
     (hpre : ∀ x ∈ pre, CleanInst true x) (hpost : ∀ x ∈ post, CleanInst true x)
@@ -483,20 +485,6 @@ theorem C15_strict_required_severity_simple (d r f g : Bool) (k : Kind) (i : Ins
   cases h with
   | simple h₁ h₂ =>
     rw [readFile_one _ pre post hpre hpost, complex_of_SH_cases (.simple h₁ h₂), C15_attr_strict_required]; rfl
-
-/-- required INTEGER / REAL / NUMBER / STRING given as `$`, LENIENT mode: user message, file accepted (exit 0), instance
-    complete.  `_partial`: internally mapped instances (every own/inherited position); excluded: attributes inside
-    complex instances (`C15_lenient_substitutes_complex_head_witness`, `…_nonhead_witness`). -/
-theorem C15_lenient_substitutes_partial (k : Kind) (r f g : Bool) (hk : substitutable k = true) (i : InstIn)
-    (pre post : List InstIn)
-    (hpre : ∀ x ∈ pre, CleanInst false x) (hpost : ∀ x ∈ post, CleanInst false x)
-    (h : OneMissingSimple false (posAttr k false r f g) true i) :
-    readFile false (pre ++ i :: post) = .usermsg ∧ accepted (readFile false (pre ++ i :: post)) = true ∧
-    nodeState (readInst false i) = .complete := by
-  cases h with
-  | simple h₁ h₂ =>
-    rw [readFile_one _ pre post hpre hpost, complex_of_SH_cases (.simple h₁ h₂), C15_attr_lenient_substitutes k r f g hk]
-    exact ⟨rfl, rfl, rfl⟩
 
 /-- … and the value stored at that position (the one written back) is 0 / 0.0 / 0 / '' — internally mapped instance -/
 theorem C15_lenient_value_simple (k : Kind) (r f g : Bool) (hk : substitutable k = true)
@@ -516,60 +504,44 @@ theorem C15_lenient_value_complex (k : Kind) (r f g : Bool) (hk : substitutable 
   simp only [List.length_map, Nat.sub_self, List.getElem?_cons_zero, Option.bind_some]
   rw [instRead_val_at (C15_strict_plumbing false).2.1 as₂ ts₂ _ _ h₁, C15_attr_lenient_substitutes k r f g hk]
 
-/-- required attribute of any other kind given as `$`, LENIENT mode: incomplete, read fails — as in strict mode.
-    `_partial`: same shapes as `C15_strict_required_incomplete_partial`. -/
-theorem C15_lenient_other_incomplete_partial (k : Kind) (r f g : Bool) (hk : substitutable k = false) (i : InstIn)
-    (pre post : List InstIn)
-    (hpre : ∀ x ∈ pre, CleanInst false x) (hpost : ∀ x ∈ post, CleanInst false x)
-    (h : OneMissingSH false (posAttr k false r f g) true i) :
-    p21readExit (readFile false (pre ++ i :: post)) = 1 ∧ accepted (readFile false (pre ++ i :: post)) = false ∧
-    nodeState (readInst false i) = .incomplete := by
-  rw [readFile_one i pre post hpre hpost, complex_of_SH_cases h, C15_attr_lenient_other k r f g hk]
-  cases h <;> exact ⟨rfl, rfl, rfl⟩
-
-/-- required attribute with NO value at all (`,` or `)` where a value is expected), either mode, every kind — also the
-    four that lenient mode would substitute for a `$`: incomplete, read fails.  `_partial`: shapes as above. -/
-theorem C15_absent_required_incomplete_partial (s r f g : Bool) (k : Kind) (i : InstIn) (pre post : List InstIn)
-    (hpre : ∀ x ∈ pre, CleanInst s x) (hpost : ∀ x ∈ post, CleanInst s x)
-    (h : OneMissingSH s (posAttr k false r f g) false i) :
-    p21readExit (readFile s (pre ++ i :: post)) = 1 ∧ accepted (readFile s (pre ++ i :: post)) = false ∧
-    nodeState (readInst s i) = .incomplete := by
-  rw [readFile_one i pre post hpre hpost, complex_of_SH_cases h, C15_attr_absent_required]
-  cases h <;> exact ⟨rfl, rfl, rfl⟩
-
 /-- the table is total: the two lenient rows partition the kinds, exactly as the property lists them -/
 theorem C15_table_total (k : Kind) :
     (substitutable k = true ↔ k = .integer ∨ k = .real ∨ k = .number ∨ k = .string) ∧
     (substitutable k = true ∨ substitutable k = false) := by
   cases k <;> simp [substitutable]
 
-/-! ### where the current code violates the property (recorded in KNOWN_FINDINGS.txt, replayed by checks/c15.py) -/
+/-! ### where the complex-instance code before C15-7 / C15-8 (`oldShape`) violates the property
+
+Stated for `oldShape`; `C15_complex_shape` says whether that is the code at hand (then these are the two classes recorded in
+KNOWN_FINDINGS.txt and replayed by checks/c15.py). -/
 
 /-- general form of `complex:nonhead-part-error-dropped`: whatever stands in the parts after the first one, the
     complex instance reads with the severity of its first part alone -/
 theorem C15_complex_nonhead_ignored (s : Bool) (p : List AttrD × List Tok) (ps : List (List AttrD × List Tok))
-    (hp : CleanL s p.1 p.2) : (readInst s (.complex (p :: ps))).sev = .null := by
-  simp only [readInst, readInstS]
-  rw [complexRead_sev_head]; exact instRead_sev_clean (C15_strict_plumbing s).2.1 hp
+    (hp : CleanL s p.1 p.2) : (readInstS oldShape s (.complex (p :: ps))).sev = .null := by
+  simp only [readInstS, oldShape]
+  rw [complexReadS_none_head]; exact instRead_sev_clean (C15_strict_plumbing s).2.1 hp
 
 /-- `#1=(A(5)B($));` with `B.x : ENUMERATION` required, STRICT mode: severity NULL, accepted, complete — the property
     demands incomplete / exit 1 -/
 theorem C15_strict_required_complex_nonhead_witness :
     let i := InstIn.complex [([⟨.integer, false, false, false, false⟩], [Tok.lit (.tok "5") .null]), ([⟨.enum, false, false, false, false⟩], [Tok.missing true])]
-    readFile true [i] = .null ∧ accepted (readFile true [i]) = true ∧ nodeState (readInst true i) = .complete := by
+    readFileS oldShape true [i] = .null ∧ accepted (readFileS oldShape true [i]) = true ∧
+    nodeState (readInstS oldShape true i) = .complete := by
   decide
 
 /-- the same file in lenient mode, and with a substitutable kind: accepted WITHOUT a user message -/
 theorem C15_lenient_complex_nonhead_witness :
     let i := InstIn.complex [([⟨.integer, false, false, false, false⟩], [Tok.lit (.tok "5") .null]), ([⟨.string, false, false, false, false⟩], [Tok.missing true])]
-    readFile false [i] = .null := by
+    readFileS oldShape false [i] = .null := by
   decide
 
 /-- `complex:usermsg-escalated`: `#1=(A($)B(.X.));` with `A.n : INTEGER` required, LENIENT mode: the part substitutes 0 with a
     user message, but the file ends with SEVERITY_WARNING and p21read exits 1 — the property demands accepted -/
 theorem C15_lenient_substitutes_complex_head_witness :
     let i := InstIn.complex [([⟨.integer, false, false, false, false⟩], [Tok.missing true]), ([⟨.enum, false, false, false, false⟩], [Tok.lit (.tok ".X.") .null])]
-    (readInst false i).sev = .usermsg ∧ readFile false [i] = .warning ∧ p21readExit (readFile false [i]) = 1 := by
+    (readInstS oldShape false i).sev = .usermsg ∧ readFileS oldShape false [i] = .warning ∧
+    p21readExit (readFileS oldShape false [i]) = 1 := by
   decide
 
 /-- `#1=RQS('a',$);` where `rqs` redeclares `rq_n : NUMBER` as INTEGER (required): since repair C15-5 the table applies —
@@ -589,13 +561,13 @@ theorem C15_lenient_substitutes_complex_head_escalated (k : Kind) (r f g : Bool)
     (hpre : ∀ x ∈ pre, CleanInst false x) (hpost : ∀ x ∈ post, CleanInst false x)
     (hp : CleanParts false ps₂) (h₁ : CleanL false as₁ ts₁) (h₂ : CleanL false as₂ ts₂) :
     let i := InstIn.complex ((as₁ ++ posAttr k false r f g :: as₂, ts₁ ++ Tok.missing true :: ts₂) :: ps₂)
-    (readInst false i).sev = .usermsg ∧ readFile false (pre ++ i :: post) = .warning ∧
-    p21readExit (readFile false (pre ++ i :: post)) = 1 ∧ nodeState (readInst false i) = .complete := by
+    (readInstS oldShape false i).sev = .usermsg ∧ readFileS oldShape false (pre ++ i :: post) = .warning ∧
+    p21readExit (readFileS oldShape false (pre ++ i :: post)) = 1 ∧ nodeState (readInstS oldShape false i) = .complete := by
   intro i
   have hsh : OneMissingSH false (posAttr k false r f g) true i := .head hp h₁ h₂
-  have hr := complex_of_SH_cases hsh
+  have hr := complex_of_SH_casesS oldShape hsh
   rw [C15_attr_lenient_substitutes k r f g hk] at hr
-  rw [readFile_one i pre post hpre hpost, hr]
+  rw [readFileS_one oldShape i pre post hpre hpost, hr]
   exact ⟨rfl, rfl, rfl, rfl⟩
 
 /-- general form of `complex:nonhead-part-error-dropped` at file level: whatever the parts after the first contain, a complex
@@ -603,13 +575,13 @@ theorem C15_lenient_substitutes_complex_head_escalated (k : Kind) (r f g : Bool)
 theorem C15_complex_nonhead_file (s : Bool) (p : List AttrD × List Tok) (ps : List (List AttrD × List Tok))
     (hp : CleanL s p.1 p.2) (pre post : List InstIn)
     (hpre : ∀ x ∈ pre, CleanInst s x) (hpost : ∀ x ∈ post, CleanInst s x) :
-    readFile s (pre ++ InstIn.complex (p :: ps) :: post) = .null ∧
-    nodeState (readInst s (.complex (p :: ps))) = .complete := by
+    readFileS oldShape s (pre ++ InstIn.complex (p :: ps) :: post) = .null ∧
+    nodeState (readInstS oldShape s (.complex (p :: ps))) = .complete := by
   have h0 := C15_complex_nonhead_ignored s p ps hp
-  rw [readFile_one _ pre post hpre hpost]
-  cases hr : readInst s (.complex (p :: ps)) with | mk sv c =>
+  rw [readFileS_one oldShape _ pre post hpre hpost]
+  cases hr : readInstS oldShape s (.complex (p :: ps)) with | mk sv c =>
   rw [hr] at h0; simp only at h0; subst h0
-  have hc : c = true := by simp [readInst, readInstS] at hr; exact hr.2
+  have hc : c = true := by simp [readInstS] at hr; exact hr.2
   subst hc
   exact ⟨rfl, rfl⟩
 
@@ -664,6 +636,54 @@ theorem C15_repaired_absent_required_incomplete (s r f g : Bool) (k : Kind) (hd 
   rw [readFileS_one _ i pre post hpre hpost, readInstS_nd (show (posAttr k false r f g).derived = false from hd) h,
     C15_attr_absent_required]
   cases i.isComplex <;> exact ⟨rfl, rfl, rfl⟩
+
+/-! ### … and for the code at hand (`C15_complex_shape`): the decision table, every position of every instance shape -/
+
+theorem readFile_eq_repaired (s : Bool) (is : List InstIn) : readFile s is = readFileS repairedShape s is := by
+  show readFileS codeShape s is = _; rw [C15_complex_shape]
+theorem readInst_eq_repaired (s : Bool) (i : InstIn) : readInst s i = readInstS repairedShape s i := by
+  show readInstS codeShape s i = _; rw [C15_complex_shape]
+
+/-- required attribute unset (`$` or absent), STRICT mode, any kind, ANY position of ANY instance shape — internally mapped
+    (own, inherited, redeclared positions) or any part of a complex instance —, anywhere in an otherwise clean population:
+    the file ends at SEVERITY_INCOMPLETE, p21read exits 1, the instance is incomplete.  (`hd`: see above.) -/
+theorem C15_strict_required_incomplete (d r f g : Bool) (k : Kind) (hd : (f && g) = false) (i : InstIn)
+    (pre post : List InstIn) (hpre : ∀ x ∈ pre, CleanInst true x) (hpost : ∀ x ∈ post, CleanInst true x)
+    (h : OneMissing true (posAttr k false r f g) d i) :
+    readFile true (pre ++ i :: post) = .incomplete ∧ p21readExit (readFile true (pre ++ i :: post)) = 1 ∧
+    nodeState (readInst true i) = .incomplete := by
+  rw [readFile_eq_repaired, readInst_eq_repaired]
+  exact C15_repaired_strict_required_incomplete d r f g k hd i pre post hpre hpost h
+
+/-- required INTEGER / REAL / NUMBER / STRING given as `$`, LENIENT mode, ANY position of ANY instance shape: user message,
+    file accepted (exit 0), instance complete (the value substituted: `C15_lenient_value_simple` / `…_complex`) -/
+theorem C15_lenient_substitutes (k : Kind) (r f g : Bool) (hk : substitutable k = true) (hd : (f && g) = false)
+    (i : InstIn) (pre post : List InstIn) (hpre : ∀ x ∈ pre, CleanInst false x) (hpost : ∀ x ∈ post, CleanInst false x)
+    (h : OneMissing false (posAttr k false r f g) true i) :
+    readFile false (pre ++ i :: post) = .usermsg ∧ accepted (readFile false (pre ++ i :: post)) = true ∧
+    nodeState (readInst false i) = .complete := by
+  rw [readFile_eq_repaired, readInst_eq_repaired]
+  exact C15_repaired_lenient_substitutes k r f g hk hd i pre post hpre hpost h
+
+/-- required attribute of any other kind given as `$`, LENIENT mode, ANY position of ANY instance shape: incomplete, read
+    fails — as in strict mode -/
+theorem C15_lenient_other_incomplete (k : Kind) (r f g : Bool) (hk : substitutable k = false) (hd : (f && g) = false)
+    (i : InstIn) (pre post : List InstIn) (hpre : ∀ x ∈ pre, CleanInst false x) (hpost : ∀ x ∈ post, CleanInst false x)
+    (h : OneMissing false (posAttr k false r f g) true i) :
+    readFile false (pre ++ i :: post) = .incomplete ∧ p21readExit (readFile false (pre ++ i :: post)) = 1 ∧
+    nodeState (readInst false i) = .incomplete := by
+  rw [readFile_eq_repaired, readInst_eq_repaired]
+  exact C15_repaired_lenient_other_incomplete k r f g hk hd i pre post hpre hpost h
+
+/-- required attribute with NO value at all (`,` or `)` where a value is expected), either mode, every kind — also the four
+    that lenient mode would substitute for a `$` —, ANY position of ANY instance shape: incomplete, read fails -/
+theorem C15_absent_required_incomplete (s r f g : Bool) (k : Kind) (hd : (f && g) = false) (i : InstIn)
+    (pre post : List InstIn) (hpre : ∀ x ∈ pre, CleanInst s x) (hpost : ∀ x ∈ post, CleanInst s x)
+    (h : OneMissing s (posAttr k false r f g) false i) :
+    readFile s (pre ++ i :: post) = .incomplete ∧ p21readExit (readFile s (pre ++ i :: post)) = 1 ∧
+    nodeState (readInst s i) = .incomplete := by
+  rw [readFile_eq_repaired, readInst_eq_repaired]
+  exact C15_repaired_absent_required_incomplete s r f g k hd i pre post hpre hpost h
 
 /-- conforming populations and unset OPTIONAL attributes read cleanly whatever the shape of the complex-instance code -/
 theorem C15_any_shape_conforming_clean (S : CxShape) (s : Bool) (is : List InstIn) (h : ∀ x ∈ is, CleanInst s x) :
